@@ -1,6 +1,7 @@
 package main
 
 import (
+	crand "crypto/rand"
 	"encoding/hex"
 	"fmt"
 	"io"
@@ -27,6 +28,9 @@ import (
 //   s3 n=<N> workers=<W> prefix=<hex> enc=<none|zstd>
 //                                      N real S3Storage.Upload calls against a local fake S3 endpoint;
 //                                      the object keys are what the endpoint saw in the PUT requests
+//   (gen and s3 lines may say fault=shortread: crypto/rand.Reader is replaced, for the duration of the
+//    line, by a source that returns ONE byte per Read call and never an error; keys must stay distinct
+//    and fully random)
 //   gcs n=<N> workers=<W> prefix=<hex> enc=<none|zstd> [fault=entropy]
 //                                      N real GCSStorage.Upload calls against a local fake GCS endpoint;
 //                                      fault=entropy: while the uuid library's entropy source reports an
@@ -178,6 +182,67 @@ func c33Parallel(n, workers int, f func()) {
 }
 
 // c33Check: shape + uniqueness oracle, and a sample of model comparisons.
+// c33ShortReader hands out the real entropy ONE byte per Read call and never reports an error —
+// allowed by the io.Reader contract (slow device, chunking wrapper).
+type c33ShortReader struct{ inner io.Reader }
+
+// c33ReadLog: the read results the short reader handed out (only kept while non-nil).
+var (
+	c33ReadLogMu sync.Mutex
+	c33ReadLog   *[]string
+)
+
+func (s c33ShortReader) Read(p []byte) (int, error) {
+	if len(p) == 0 {
+		return 0, nil
+	}
+	n, err := s.inner.Read(p[:1])
+	c33ReadLogMu.Lock()
+	if c33ReadLog != nil {
+		*c33ReadLog = append(*c33ReadLog, hex.EncodeToString(p[:n]))
+	}
+	c33ReadLogMu.Unlock()
+	return n, err
+}
+
+// c33WithShortReads runs f while crypto/rand.Reader is replaced by the short-reading source.
+func c33WithShortReads(on bool, f func()) {
+	if !on {
+		f()
+		return
+	}
+	old := crand.Reader
+	crand.Reader = c33ShortReader{old}
+	defer func() { crand.Reader = old }()
+	f()
+}
+
+// c33LowEntropy: S3 keys whose 16 bytes are mostly zero (a true draw has ~0.06 zero bytes on average).
+func c33LowEntropy(c *Case, line string, keys []string) {
+	low, ex := 0, ""
+	for _, k := range keys {
+		if i := len(k) - 36; i >= 0 {
+			raw, err := hex.DecodeString(strings.ReplaceAll(k[i:], "-", ""))
+			if err != nil || len(raw) != 16 {
+				continue
+			}
+			z := 0
+			for _, b := range raw {
+				if b == 0 {
+					z++
+				}
+			}
+			if z >= 8 {
+				low++
+				ex = k
+			}
+		}
+	}
+	if low > 0 {
+		c.Oracle("s3-key-low-entropy-under-short-reads", fmt.Sprintf("%q: %d of %d keys have at least 8 zero bytes out of 16 (e.g. %s): the entropy source's short reads were not completed", line, low, len(keys), ex))
+	}
+}
+
 // c33FailingReader is an entropy source that reports an error (what a getrandom/urandom failure looks like).
 type c33FailingReader struct{}
 
@@ -321,13 +386,37 @@ func c33Exec(c *Case) {
 		case "gen":
 			var mu sync.Mutex
 			keys := make([]string, 0, n)
-			c33Parallel(n, workers, func() {
-				k := vgis3.VerifC33GenerateUUID()
-				mu.Lock()
-				keys = append(keys, k)
-				mu.Unlock()
+			short := kv["fault"] == "shortread"
+			if short && workers <= 1 {
+				// a few calls one at a time with the read results recorded: the model, given exactly
+				// those read results, must produce the same key
+				c33WithShortReads(true, func() {
+					for i := 0; i < 4; i++ {
+						var log []string
+						c33ReadLogMu.Lock()
+						c33ReadLog = &log
+						c33ReadLogMu.Unlock()
+						k := vgis3.VerifC33GenerateUUID()
+						c33ReadLogMu.Lock()
+						c33ReadLog = nil
+						c33ReadLogMu.Unlock()
+						c.Out(fmt.Sprintf("s3r prefix=x chunks=%s", strings.Join(log, ",")), k)
+					}
+				})
+			}
+			c33WithShortReads(short, func() {
+				c33Parallel(n, workers, func() {
+					k := vgis3.VerifC33GenerateUUID()
+					mu.Lock()
+					keys = append(keys, k)
+					mu.Unlock()
+				})
 			})
 			c33Check(c, l, "s3", "", "", keys, seen)
+			if short {
+				c.Stat("shortread-lines")
+				c33LowEntropy(c, l, keys)
+			}
 		case "s3":
 			st, err := vgis3.NewS3Storage("bkt", vgis3.S3Config{Prefix: prefix, EndpointURL: c33S3Srv.URL, Region: "us-east-1"})
 			if err != nil {
@@ -340,14 +429,21 @@ func c33Exec(c *Case) {
 			}
 			var errs int
 			var mu sync.Mutex
-			c33Parallel(n, workers, func() {
-				if _, err := st.Upload([]byte("payload"), nil, enc); err != nil {
-					mu.Lock()
-					errs++
-					mu.Unlock()
-				}
+			short := kv["fault"] == "shortread"
+			c33WithShortReads(short, func() {
+				c33Parallel(n, workers, func() {
+					if _, err := st.Upload([]byte("payload"), nil, enc); err != nil {
+						mu.Lock()
+						errs++
+						mu.Unlock()
+					}
+				})
 			})
 			keys := c33S3Fake.take()
+			if short {
+				c.Stat("shortread-lines")
+				c33LowEntropy(c, l, keys)
+			}
 			if errs > 0 || len(keys) != n/max(workers, 1)*max(workers, 1) {
 				c.Oracle("uploads-did-not-reach-the-fake-endpoint", fmt.Sprintf("%q: %d upload errors, %d keys observed", l, errs, len(keys)))
 			}
@@ -433,6 +529,10 @@ func c33Gen(g *Gen) {
 			fmt.Sprintf("gcs n=%d workers=%d plen=%d enc=%s", r.Range(4, 8), Pick(r, []int{1, 2}), pl, enc),
 			fmt.Sprintf("gcs n=%d workers=1 plen=%d enc=%s", r.Range(3, 6), pl, Pick(r, []string{"none", "zstd"})))
 	}
+	// a short-reading (never failing) entropy source behind crypto/rand.Reader
+	g.Case("s3 n=300 workers=1 prefix= enc=none fault=shortread", fmt.Sprintf("gen n=%d workers=%d fault=shortread", g.N(2000, 50000), Pick(r, []int{1, 4})))
+	g.Case(fmt.Sprintf("s3 n=%d workers=4 plen=%d enc=zstd fault=shortread", r.Range(300, 400), Pick(r, []int{0, 8, 40})),
+		fmt.Sprintf("s3 n=%d workers=1 prefix= enc=none", r.Range(20, 60)))
 	// real uploads
 	prefixes := []string{"", "vgi-rpc/", "a/b/", "x", "tenant-1/2026/09/"}
 	for i := 0; i < g.N(6, 40); i++ {
